@@ -252,6 +252,8 @@ fn server_html<T: RenderHtml>(make: &dyn Fn() -> T, form: i64) -> String {
             std::task::Poll::Pending => {
                 stalls += 1;
                 assert!(stalls < 200, "stream does not finish");
+                // tasks of the server side (the isomorphic effect of a <Suspense>, resources)
+                exec::run_all(&[]);
                 let tx = SENDERS.with(|s| {
                     let mut s = s.borrow_mut();
                     if s.is_empty() {
@@ -419,6 +421,131 @@ fn reactive_flow<T: RenderHtml>(make: &dyn Fn() -> T, c: &Sexp) -> Sexp {
     exec::run_all(&[]);
     let post = ndom::mutations() - m1;
     SIGS.with(|s| s.borrow_mut().clear());
+    Lst(vec![
+        Sexp::from_str(&html),
+        Lst(vec![Num(1), Num(nops as i64)]),
+        Sexp::bool(same),
+        Lst(eqs),
+        Num(post as i64),
+        Num(ndom::errors().len() as i64),
+    ])
+}
+
+
+// ------------------------------------------------------------------ shape 5: leptos components through hydration
+/// case `(5 form tree sources sigs steps)`: a component tree of c04l.rs (`<Show>`, `<For>` / `<ForEnumerate>`,
+/// `<Suspense>` / `<Transition>` over `leptos_server::Resource`s read through `Suspend(res.await)` and `.get()`,
+/// `<ErrorBoundary>`) is rendered by the server code as an in-order (form 1) or out-of-order (2) stream with
+/// every resource resolving at once, parsed, and hydrated — the client has the data, too — next to a
+/// client-built twin (own resources, same signals). Steps `(writes picks completions)` as in c04l.rs: a
+/// completion `r` resolves every outstanding fetch of resource `r` (of both trees). The two trees must
+/// be equal at every executor-idle point.
+/// observation as for shape 4.
+pub fn run_leptos(c: &Sexp) -> Sexp {
+    use crate::c04::{complete, dec_expr, Sigs, FRESH, FUTURES};
+    use crate::c04l::{dec, make_resources, mk as lmk, Ctx, RES};
+    let form = c.at(1).num();
+    let tree = dec(c.at(2));
+    let sources: Vec<crate::c04::E> = c.at(3).list().iter().map(dec_expr).collect();
+    FUTURES.lock().unwrap().clear();
+    crate::c04::EXT.with(|e| e.set(true));
+    let sigs: Sigs = Arc::new(c.at(4).list().iter().map(|x| RwSignal::new(x.num())).collect());
+    let make = || {
+        let res = make_resources(&sources, &sigs, 1);
+        lmk(&tree, &Ctx { sigs: sigs.clone(), res })
+    };
+
+    FRESH.with(|r| r.set(true));
+    let server_owner = Owner::new();
+    let html = {
+        let _zone = reactive_graph::diagnostics::SpecialNonReactiveZone::enter();
+        server_owner.with(|| server_html(&make, form))
+    };
+    server_owner.cleanup();
+    drop(server_owner);
+    exec::reset();
+
+    let root = parse_server_markup(&html);
+    let before = shape(&root);
+    let m0 = ndom::mutations();
+    let hyd_owner = Owner::new();
+    let hyd = hyd_owner.with(|| catch_unwind(AssertUnwindSafe(|| make().hydrate_from::<true>(&root))));
+    let nops = ndom::mutations() - m0;
+    let st = match hyd {
+        Ok(st) => st,
+        Err(_) => {
+            FRESH.with(|r| r.set(false));
+            crate::c04::EXT.with(|e| e.set(false));
+            return Lst(vec![Sexp::from_str(&html), Lst(vec![Num(0)])]);
+        }
+    };
+    let same = shape(&root) == before;
+    let root2 = Dom::create_element("div", None);
+    let twin_owner = Owner::new();
+    let mut st2 = twin_owner.with(|| make().build());
+    st2.mount(&root2, None);
+    exec::run_all(&[]);
+    FRESH.with(|r| r.set(false));
+
+    let dbg = |tag: &str| {
+        if std::env::var("C05_DEBUG").is_ok() {
+            eprintln!("{tag}\nhydrated: {}\nbuilt:    {}", root.serialize(), root2.serialize());
+        }
+    };
+    let mut eqs = vec![Sexp::bool(visible(&root) == visible(&root2))];
+    dbg("after hydration");
+    for step in c.at(5).list() {
+        for w in step.at(0).list() {
+            if let Some(sig) = sigs.get(w.at(0).num() as usize) {
+                sig.set(w.at(1).num());
+            }
+        }
+        exec::run_all(&step.at(1).nums());
+        for r in step.at(2).nums() {
+            let mut any = false;
+            while complete(Some(RES + r), 0) {
+                any = true;
+            }
+            if any {
+                exec::run_all(&[]);
+            }
+        }
+        eqs.push(Sexp::bool(visible(&root) == visible(&root2)));
+        dbg("step");
+    }
+    let mut guard = 0;
+    loop {
+        let mut any = false;
+        while complete(None, 0) {
+            any = true;
+        }
+        exec::run_all(&[]);
+        guard += 1;
+        if !any || guard > 100 {
+            break;
+        }
+    }
+    eqs.push(Sexp::bool(visible(&root) == visible(&root2)));
+    dbg("all complete");
+
+    drop(st);
+    drop(st2);
+    hyd_owner.cleanup();
+    twin_owner.cleanup();
+    drop(hyd_owner);
+    drop(twin_owner);
+    exec::run_all(&[]);
+    let m1 = ndom::mutations();
+    for sig in sigs.iter() {
+        sig.set(sig.get_untracked() + 1);
+    }
+    exec::run_all(&[]);
+    while complete(None, 0) {}
+    exec::run_all(&[]);
+    let post = ndom::mutations() - m1;
+    FUTURES.lock().unwrap().clear();
+    crate::c04::LOG.lock().unwrap().clear();
+    crate::c04::EXT.with(|e| e.set(false));
     Lst(vec![
         Sexp::from_str(&html),
         Lst(vec![Num(1), Num(nops as i64)]),
